@@ -18,7 +18,7 @@ RULE = (
     "outcome per feed: ok / timeout / EZSP error, and for protocol versions other than 4 the failing command is either "
     "the counter read or the free-buffer read, or success with the free-buffer read refused by a status (6 outcomes). Exhaustive: every outcome sequence of length L for version 4 "
     "(3^L, L = 8 quick / 10 thorough) and for versions 8 and 13 (5^L, L = 6 quick / 8 thorough; every shorter sequence "
-    "is a prefix and is judged feed by feed); plus Hypothesis sequences of up to 400 feeds across the 180-feed clear "
+    "is a prefix and is judged feed by feed); failures on and around the request that carries sequence byte 255; plus Hypothesis sequences of up to 400 feeds across the 180-feed clear "
     "period, and with the period patched to 3. Non-trivial = the sequence contains a run of at least 5 consecutive "
     "failures or a success after at least one failure; distinct by (version, period, sequence)."
 )
@@ -307,6 +307,17 @@ def _worker_misc(ctx, job):
             ctx.check(plan, check(plan), sample=(c0 == 2 ** 16 - 200))
 
 
+def _worker_wrap(ctx, job):
+    """Failed keep-alives placed on and around the request that carries sequence byte 255 (and 0) of the protocol
+    handler: the outcome of a feed must not depend on which sequence number its command happened to get."""
+    v, fail = job
+    per_feed = 1 if v == 4 else 2
+    for n in range(256 // per_feed - 6, 256 // per_feed + 3):
+        for run in (1, 6):
+            plan = {"v": v, "seq": ["ok"] * n + [fail] * run + ["ok", "ok"]}
+            ctx.check(plan, check(plan), sample=(n == 256 // per_feed - 1 and run == 1))
+
+
 def _worker_long(ctx, n):
     ctx.search(long_plans(), check, max_examples=n)
 
@@ -326,4 +337,5 @@ def run(ctx):
     ctx.parallel(_worker_stopped, [(4, f) for f in range(3)])
     ctx.parallel(_worker_misc, [(v, what) for v in (4, 8, 14) for what in ("switch", "counter")])
     ctx.parallel(_worker_vswitch, [(8, 4), (4, 8), (13, 4), (4, 14), (14, 4)])
+    ctx.parallel(_worker_wrap, [(4, f) for f in OUT4[1:]] + [(v, f) for v in (8, 14) for f in OUTN[1:5]])
     ctx.parallel(_worker_long, [12] * 16 if quick else [300] * 16)
